@@ -153,7 +153,10 @@ def py_filter(flt, root):
     if k == "namedThenEmpty":
         named = from_disk.ignore_named_directories([unhx(n) for n in flt["names"]], case_sensitive=flt["cs"])
         return lambda p, n, e: named(p, n, e) and from_disk.ignore_empty_directories(p, n, e)
-    return from_disk.ignore_directories_patterns(root, [unhx(p) for p in flt["patterns"]])
+    pats = [unhx(p) for p in flt["patterns"]]
+    # every other pattern is given as an absolute path below the root (accepted, and made relative)
+    pats = [os.path.join(os.path.abspath(root), p) if i % 2 else p for i, p in enumerate(pats)]
+    return from_disk.ignore_directories_patterns(root, pats)
 
 
 def pruned(spec, flt):
